@@ -24,6 +24,8 @@
 //	                                                       a state transformer)
 //	            for { … } / for c { … } with return, break, continue in the body (body ↦ Ctl, see below)
 //	            (loops: not nested, fuel expression from the whitelist table)
+//	            for i := c; i < N; i++ { … }  with constants c, N, no `continue` and no write to i in the body
+//	                                          (round 4, round4.go: rewritten to `i := c; for i < N { …; i++ }`, fuel computed)
 //	            return e1, …, en; falling off the end of a function without results
 //	            the statement sequences of the effect table below
 //	expressions integer literals and constants (named package constants are emitted as Lean defs with
